@@ -10,12 +10,17 @@ use crate::synth::complete_lengths;
 use crate::{hex, unhex, Opts};
 
 pub fn case<W: Write>(out: &mut W, id: &str, lens: &[(u16, u8)], bits: &[u8], n: usize) {
+    case_cap(out, id, lens, bits, n, 4096)
+}
+
+/// `cap`: capacity of the bit buffer the symbols are decoded through - the decoded symbols may not depend on it
+pub fn case_cap<W: Write>(out: &mut W, id: &str, lens: &[(u16, u8)], bits: &[u8], n: usize, cap: usize) {
     let impl_txt = crate::quiet(AssertUnwindSafe(|| {
         let mut v: Vec<(u16, u8)> = lens.to_vec();
         match CanonicalHuffmanTree::<LE, u16>::new(&mut v) {
             Err(_) => "err".to_string(),
             Ok(tree) => {
-                let mut rd = BitBufReader::<_, LE>::with_capacity(bits, 4096);
+                let mut rd = BitBufReader::<_, LE>::with_capacity(bits, cap);
                 let mut syms = vec![];
                 for _ in 0..n {
                     match rd.read_huffman(&tree) {
@@ -29,7 +34,7 @@ pub fn case<W: Write>(out: &mut W, id: &str, lens: &[(u16, u8)], bits: &[u8], n:
     }))
     .unwrap_or("panic".into());
     let l: Vec<String> = lens.iter().map(|(s, l)| format!("{s}:{l}")).collect();
-    writeln!(out, "C18 id={id} lens={} bits={} n={n} impl={impl_txt}", if l.is_empty() { "-".to_string() } else { l.join(",") }, hex(bits)).unwrap();
+    writeln!(out, "C18 id={id} lens={} bits={} n={n} cap={cap} impl={impl_txt}", if l.is_empty() { "-".to_string() } else { l.join(",") }, hex(bits)).unwrap();
 }
 
 pub fn replay<W: Write>(line: &str, out: &mut W) {
@@ -38,7 +43,8 @@ pub fn replay<W: Write>(line: &str, out: &mut W) {
         Some("-") | None => vec![],
         Some(s) => s.split(',').map(|t| { let (a, b) = t.split_once(':').unwrap(); (a.parse().unwrap(), b.parse().unwrap()) }).collect(),
     };
-    case(out, &get("id").unwrap_or("replay".into()), &lens, &unhex(&get("bits").unwrap()), get("n").unwrap().parse().unwrap());
+    let cap = get("cap").and_then(|c| c.parse().ok()).unwrap_or(4096);
+    case_cap(out, &get("id").unwrap_or("replay".into()), &lens, &unhex(&get("bits").unwrap()), get("n").unwrap().parse().unwrap(), cap);
 }
 
 pub fn run<W: Write>(opts: &Opts, out: &mut W) {
@@ -70,6 +76,36 @@ pub fn run<W: Write>(opts: &Opts, out: &mut W) {
             for v in 0..4096u32 {
                 case(out, &format!("bits{ci}-{v}"), lens, &[(v & 0xff) as u8, (v >> 8) as u8], 12);
             }
+        }
+    }
+    // streams longer than the bit buffer: code words straddle every kind of refill boundary (the decoder reads through
+    // a buffer of `cap` bytes; what it decodes is defined by the code alone)
+    let nref = if opts.tier_thorough { 3000 } else { 240 };
+    for i in 0..nref {
+        if !opts.mine(i) {
+            continue;
+        }
+        let mut r = rng.fork(700_000 + i);
+        let alphabet = *r.pick(&[19usize, 40, 256, 280]);
+        let nsyms = 2 + r.below(22) as usize;
+        let lens_v = complete_lengths(&mut r, alphabet, nsyms, 15, &mut |rr| rr.below(alphabet as u64) as usize);
+        let lens: Vec<(u16, u8)> = lens_v.iter().enumerate().filter(|(_, &l)| l > 0).map(|(s, &l)| (s as u16, l)).collect();
+        if i % 12 == 11 {
+            // the production capacity: a stream a little over one buffer
+            let nb = 4096 + 1 + r.below(300) as usize;
+            let mut bits = r.bytes(nb);
+            // mostly ones: long code words, few symbols per byte
+            for b in bits.iter_mut() {
+                if r.chance(3, 4) {
+                    *b |= 0xee;
+                }
+            }
+            case_cap(out, &format!("refill4096-{i}"), &lens, &bits, 8 * nb, 4096);
+        } else {
+            let cap = *r.pick(&[16usize, 17, 19, 24, 32, 33, 64]);
+            let nb = cap + 1 + r.below(3 * cap as u64) as usize;
+            let bits = r.bytes(nb);
+            case_cap(out, &format!("refill{cap}-{i}"), &lens, &bits, 8 * nb, cap);
         }
     }
     // random vectors over the real alphabets: complete, under- and over-subscribed by one leaf
